@@ -50,6 +50,7 @@ type Ctl struct {
 	Sticky  float64       // probability of releasing the same goroutine again (depth-first flavour)
 	lastKey string
 	stop    bool
+	Runaway bool // a goroutine of the library loops without getting anywhere (see recWriter)
 	NoPark  bool // log events without parking (used for the second Run of a graph, which launches nothing)
 	// Fill - "fill the semaphore" schedule (single graph, no shared tasks): workers are held inside their task
 	// function (parked at `enter`) until min(FillLimit, workers in flight) of them are inside at once. If the
@@ -214,6 +215,12 @@ func (c *Ctl) WorkersInFlight(g string) int {
 		}
 	}
 	return n
+}
+
+func (c *Ctl) IsRunaway() bool {
+	c.mu.Lock()
+	defer c.mu.Unlock()
+	return c.Runaway
 }
 
 func (c *Ctl) NumEvents() int {
